@@ -136,3 +136,68 @@ func (p *ScriptConn) RemoteAddr() net.Addr               { return fakeAddr("remo
 func (p *ScriptConn) SetDeadline(t time.Time) error      { return nil }
 func (p *ScriptConn) SetReadDeadline(t time.Time) error  { return nil }
 func (p *ScriptConn) SetWriteDeadline(t time.Time) error { return nil }
+
+// DgramConn is the datagram counterpart of ScriptConn: every Write is one datagram handed to React, every
+// Read returns one queued datagram.
+type DgramConn struct {
+	v      uint64
+	Name   string
+	queue  [][]byte
+	closed bool
+	rerr   error
+	dead   bool
+	React  func(c *DgramConn, datagram []byte) (out [][]byte)
+	Writes int
+}
+
+func (p *DgramConn) Read(b []byte) (int, error) {
+	point(p.Name+".read", func() bool { return len(p.queue) > 0 || p.closed || p.dead })
+	touch(&p.v, 16)
+	if p.closed {
+		return 0, ErrClosed
+	}
+	if len(p.queue) == 0 {
+		if p.rerr != nil {
+			return 0, p.rerr
+		}
+		return 0, errors.New("read: connection refused")
+	}
+	n := copy(b, p.queue[0])
+	p.queue = p.queue[1:]
+	return n, nil
+}
+
+func (p *DgramConn) Write(b []byte) (int, error) {
+	point(p.Name+".write", always)
+	touch(&p.v, 17)
+	p.Writes++
+	if p.closed {
+		return 0, ErrClosed
+	}
+	if p.React != nil {
+		p.queue = append(p.queue, p.React(p, append([]byte{}, b...))...)
+	}
+	return len(b), nil
+}
+
+// Deliver queues a datagram for the reader.
+func (p *DgramConn) Deliver(d []byte) { touch(&p.v, 17); p.queue = append(p.queue, d) }
+
+// Fail makes further reads fail with err (e.g. ICMP port unreachable surfacing as ECONNREFUSED).
+func (p *DgramConn) Fail(err error) { touch(&p.v, 18); p.dead = true; p.rerr = err }
+
+func (p *DgramConn) Close() error {
+	point(p.Name+".close", always)
+	touch(&p.v, 18)
+	if p.closed {
+		return ErrClosed
+	}
+	p.closed = true
+	return nil
+}
+func (p *DgramConn) IsClosed() bool                     { return p.closed }
+func (p *DgramConn) LocalAddr() net.Addr                { return fakeAddr("local") }
+func (p *DgramConn) RemoteAddr() net.Addr               { return fakeAddr("remote") }
+func (p *DgramConn) SetDeadline(t time.Time) error      { return nil }
+func (p *DgramConn) SetReadDeadline(t time.Time) error  { return nil }
+func (p *DgramConn) SetWriteDeadline(t time.Time) error { return nil }
